@@ -187,6 +187,48 @@ if live_finding("F02a"):
     gp.returns = _vc_excluding_f02a
 
 
+# ------------------------------------------------------------------------------------------------- negate_constraints: a violable keyword does get negated
+MU = "schemathesis.specs.openapi.negative.mutations:"
+R.contract("schemathesis.specs.openapi.negative.utils:can_negate", args={"schema": Opq("Any")}, returns=Bool, trusted=True,
+           effects={"can_negate": "result"}, note="canonicalish(schema) != {} (hypothesis-jsonschema): the schema rejects something")
+
+
+def _draw(it, a, k=None):
+    """E2 `draw`: sampled_from(xs) yields one of xs; shared(FeatureStrategy()) yields a feature-flag object whose is_enabled(key) is arbitrary."""
+    from pyvc.values import VObj
+
+    term = a[0]
+    if isinstance(term, tuple) and term and term[0] == "sampled_from":
+        xs = list(term[1])
+        return it.path.choose([(x, True) for x in xs], "sampled")
+    return VObj(it.resolve_class("spec:Features"), {})
+
+
+R.extern["hypothesis.strategies.sampled_from"] = lambda it, a, k: ("sampled_from", it.iterate_all(a[0]))
+R.extern["hypothesis.strategies.shared"] = lambda it, a, k: ("shared", a[0])
+R.extern["hypothesis.strategies._internal.featureflags.FeatureStrategy"] = lambda it, a, k: ("features",)
+R.contract("spec:draw_mutation", args={"strategy": Opq("Any")}, returns=lambda it, env: _draw(it, [env["strategy"]]), trusted=True, note="E2 Hypothesis draw")
+R.nominal_methods["spec:Features"] = {"is_enabled": lambda it, obj, a, k: Bool.make(it, it.path.fresh("feature_enabled"))}
+SUCCESS_ = "result.name == 'SUCCESS'"
+# which keywords of a string schema can be violated by a value that can actually be SENT in the location (independent of the code): an empty path segment cannot
+VIOLABLE = ("('maxLength' in old(dict(schema)) or 'pattern' in old(dict(schema)) or 'enum' in old(dict(schema)) or "
+            "('minLength' in old(dict(schema)) and (old(dict(schema))['minLength'] >= 2 or (old(dict(schema))['minLength'] == 1 and context.location != 'path'))))")
+StrSchema = DictOf(required={"type": Const("string")}, optional={"minLength": IntRange(0, None), "maxLength": IntRange(0, None), "pattern": Str, "enum": Opq("Enum"), "example": Opq("Any")})
+R.contract(
+    MU + "negate_constraints",
+    prop="C02",
+    args={"context": Obj(MU + "MutationContext", keywords=Opq("Any"), non_keywords=Opq("Any"), location=Choice("path", "header", "cookie", "query"), media_type=NoneT),
+          "draw": Callable_(contract="spec:draw_mutation", name="draw"), "schema": StrSchema},
+    ghost={"can_negate": None},
+    ensures={
+        # "an operation with at least one input that can be violated does get negative cases": the constraint negation succeeds whenever some keyword is violable in this location
+        "violable_keyword_gets_negated": "implies(ghost('can_negate') and " + VIOLABLE + ", " + SUCCESS_ + ")",
+        # success means a real negation: some original constraint is under `not`, the type is kept (same-type negation), nothing is invented
+        "success_negates_an_original_constraint": "implies(" + SUCCESS_ + ", 'not' in schema and length(schema['not']) > 0 and all(k in old(dict(schema)) and k != 'type' for k in schema['not']) and schema.get('type') == 'string')",
+        "failure_leaves_no_negation": "implies(not " + SUCCESS_ + ", 'not' not in schema)",
+    },
+)
+
 def _n_mode(name):
     def f():
         from schemathesis.generation import GenerationMode
